@@ -330,6 +330,8 @@ def c14(run, tier):
         ok, out = run.tlc_mc("CliPool", cfg, "clipool-%d-%d" % (nf, n), timeout=600, deadlock_check=True)
         if not ok:
             raise_spec(run, "CliPool violates its own properties", out)
+    if tier == "thorough":
+        apalache_pool(run)
     binary = run.build_cli(race=True)
     rng = random.Random(run.seed)
     fdir = os.path.join(run.work, "files")
@@ -680,6 +682,53 @@ def adapter_replay(run, path):
         return 1
     print("not reproduced:", path)
     return 0
+
+
+def apalache_pool(run):
+    """CliPoolInd.tla: Apalache discharges an inductive invariant of the worker pool (5 files, -c 3, goroutine workers; and -c 1,
+    inline workers) - Init => IndInv, IndInv /\\ Next => IndInv' - so the pool's safety properties hold in every reachable state
+    without enumeration (TLC enumerates up to 4 files).  Probes: two states must be satisfiable under IndInv (non-vacuity), and a
+    pool without the semaphore guard must NOT be inductive.  A timeout is recorded and skipped (this step adds assurance about the
+    specification; verdicts about the code come from the trace stages)."""
+    import subprocess, shutil, os, time
+    if not shutil.which("apalache-mc"):
+        run.notes.append("apalache-mc not found: inductive-invariant step skipped")
+        return
+    d = os.path.join(run.work, "apalache")
+    os.makedirs(d, exist_ok=True)
+    for f in ("CliPool.tla", "CliPoolInd.tla"):
+        shutil.copy(os.path.join(run.root, "spec", f), d)
+    def ap(cinit, init, inv, length, cwd=d, timeout=900):
+        t = time.time()
+        try:
+            p = subprocess.run(["apalache-mc", "check", "--cinit=" + cinit, "--init=" + init, "--inv=" + inv, "--length=%d" % length, "--out-dir=" + os.path.join(cwd, "out"), "CliPoolInd.tla"],
+                               cwd=cwd, capture_output=True, text=True, timeout=timeout)
+        except subprocess.TimeoutExpired:
+            return None, ""
+        out = p.stdout + p.stderr
+        res = "ok" if "The outcome is: NoError" in out else ("error" if "The outcome is: Error" in out else None)
+        run.stage_info.append({"stage": "apalache:%s/%s/%s/%d" % (cinit, init, inv, length), "module": "CliPoolInd", "outcome": res, "wall_s": round(time.time() - t, 1)})
+        return res, out
+    plan = [("CInit", "Init", "IndInv", 0, "ok"), ("CInit", "IndInit", "IndInv", 1, "ok"), ("CInitSeq", "Init", "IndInv", 0, "ok"), ("CInitSeq", "IndInit", "IndInv", 1, "ok"),
+            ("CInit", "IndInit", "NoExitState", 0, "error"), ("CInit", "IndInit", "NoFullHouse", 0, "error")]
+    for cinit, init, inv, length, want in plan:
+        res, out = ap(cinit, init, inv, length)
+        if res is None:
+            run.notes.append("apalache %s/%s/%s: no outcome within the time limit - skipped" % (cinit, init, inv))
+            return
+        if res != want:
+            raise_spec(run, "Apalache: %s %s %s length %d gave %s, expected %s" % (cinit, init, inv, length, res, want), out)
+    # sabotage: without the semaphore guard the invariant must not be inductive
+    m = os.path.join(d, "mut")
+    os.makedirs(m, exist_ok=True)
+    src = open(os.path.join(d, "CliPool.tla")).read()
+    assert "/\\ sem < N" in src
+    open(os.path.join(m, "CliPool.tla"), "w").write(src.replace("/\\ sem < N", "/\\ TRUE", 1))
+    shutil.copy(os.path.join(d, "CliPoolInd.tla"), m)
+    res, out = ap("CInit", "IndInit", "IndInv", 1, cwd=m)
+    if res == "ok":
+        raise_spec(run, "Apalache: the pool without its semaphore guard still satisfies IndInv", out)
+    shutil.rmtree(d, ignore_errors=True)
 
 
 def raise_spec(run, what, out):
